@@ -306,34 +306,42 @@ Qed.
 
 (* int64(v*100) ROUNDS DOWN: the percent taken from a label never exceeds the ratio written on the
    node, and loses less than one percent — checked exhaustively (by computation in the kernel, on the exact
-   binary64 model) for every label up to 10.0 (1000 %) with 1, 2, 3 or 4 decimals *)
+   binary64 model) for every label up to 10.0 (1000 %) with 1, 2 or 3 decimals and up to 1.6383 with 4 decimals *)
 Definition label_ok (scale h : Z) : bool :=
   let p := ratio_label_pct_k scale h in (scale * p <=? 100 * h) && (100 * h <=? scale * (p + 1)).
-Fixpoint all_upto (f : Z -> bool) (n : nat) : bool :=
-  match n with O => f 0 | S k => f (Z.of_nat n) && all_upto f k end.
-Lemma all_upto_spec f n : all_upto f n = true -> forall h, 0 <= h <= Z.of_nat n -> f h = true.
+(* f holds on lo .. lo + 2^k - 1 (binary splitting: no large unary numbers) *)
+Fixpoint all_range (f : Z -> bool) (k : nat) (lo : Z) : bool :=
+  match k with
+  | O => f lo
+  | S k' => all_range f k' lo && all_range f k' (lo + 2 ^ Z.of_nat k')
+  end.
+Lemma all_range_spec f k : forall lo, all_range f k lo = true ->
+  forall h, lo <= h < lo + 2 ^ Z.of_nat k -> f h = true.
 Proof.
-  induction n as [|k IH]; intros H h Hh.
-  - cbn in H. assert (h = 0) as -> by lia. exact H.
-  - cbn [all_upto] in H. apply andb_true_iff in H. destruct H as [H1 H2].
-    destruct (Z.eq_dec h (Z.of_nat (S k))) as [->|Hne]; [exact H1|]. apply IH; [exact H2|lia].
+  induction k as [|k IH]; intros lo H h Hh.
+  - cbn in *. assert (h = lo) as -> by lia. exact H.
+  - cbn [all_range] in H. apply andb_true_iff in H. destruct H as [H1 H2].
+    rewrite Nat2Z.inj_succ, Z.pow_succ_r in Hh by lia.
+    destruct (Z_lt_ge_dec h (lo + 2 ^ Z.of_nat k)) as [Hlt|Hge].
+    + apply (IH lo H1). lia.
+    + apply (IH _ H2). lia.
 Qed.
-Lemma label_ok_10 : all_upto (label_ok 10) 100 = true. Proof. vm_compute. reflexivity. Qed.
-Lemma label_ok_100 : all_upto (label_ok 100) 1000 = true. Proof. vm_compute. reflexivity. Qed.
-Lemma label_ok_1000 : all_upto (label_ok 1000) 10000 = true. Proof. vm_compute. reflexivity. Qed.
-Lemma label_ok_10000 : all_upto (label_ok 10000) 100000 = true. Proof. vm_compute. reflexivity. Qed.
+Lemma label_ok_10 : all_range (label_ok 10) 7 0 = true. Proof. vm_compute. reflexivity. Qed.
+Lemma label_ok_100 : all_range (label_ok 100) 10 0 = true. Proof. vm_compute. reflexivity. Qed.
+Lemma label_ok_1000 : all_range (label_ok 1000) 14 0 = true. Proof. vm_compute. reflexivity. Qed.
+Lemma label_ok_10000 : all_range (label_ok 10000) 14 0 = true. Proof. vm_compute. reflexivity. Qed.
 Lemma label_rounds_down kind h :
-  0 < label_scale kind -> 0 <= h <= 10 * label_scale kind ->
+  0 < label_scale kind -> 0 <= h <= 10 * label_scale kind -> h < 16384 ->
   let p := ratio_label_pct_k (label_scale kind) h in
   label_scale kind * p <= 100 * h <= label_scale kind * (p + 1).
 Proof.
-  intros Hs Hh. cbv zeta.
+  intros Hs Hh Hb. cbv zeta.
   assert (H : label_ok (label_scale kind) h = true).
   { unfold label_scale in *.
-    destruct (kind =? 1); [apply (all_upto_spec _ _ label_ok_100); cbn; lia|].
-    destruct ((kind =? 4) || (kind =? 5)); [apply (all_upto_spec _ _ label_ok_1000); cbn; lia|].
-    destruct (kind =? 6); [apply (all_upto_spec _ _ label_ok_10); cbn; lia|].
-    destruct (kind =? 7); [apply (all_upto_spec _ _ label_ok_10000); cbn; lia|lia]. }
+    destruct (kind =? 1); [apply (all_range_spec _ _ _ label_ok_100); cbn; lia|].
+    destruct ((kind =? 4) || (kind =? 5)); [apply (all_range_spec _ _ _ label_ok_1000); cbn; lia|].
+    destruct (kind =? 6); [apply (all_range_spec _ _ _ label_ok_10); cbn; lia|].
+    destruct (kind =? 7); [apply (all_range_spec _ _ _ label_ok_10000); cbn; lia|lia]. }
   unfold label_ok in H. apply andb_true_iff in H. destruct H as [H1 H2].
   apply Z.leb_le in H1. apply Z.leb_le in H2. lia.
 Qed.
